@@ -30,6 +30,19 @@ def run(ctx):
             ctx.ob('C06.1', f, 'record-before-publish', ok,
                    'send %s' % ('is dominated by the buffer push' if ok else 'happens BEFORE the frame is pushed into the history buffer: a subscriber that subscribes and snapshots between the two never receives this frame'), line=s.line)
     ctx.floor('C06.1', 'buffer emitters', n, 2)
+    # what was recorded is published, unconditionally: a frame that is in the history buffer but was never sent (because
+    # a later step — the log append — failed) reaches subscribers that attach later but not the ones already attached
+    for p, f in sorted(P.fns.items()):
+        if f.crate != 'ripd':
+            continue
+        pushes = f.calls(PUSH, full=r'Vec::<rip_kernel::Event>::push')
+        sends = f.calls(SEND, full=r'Sender::<rip_kernel::Event>::send')
+        if not pushes or not sends:
+            continue
+        for pu in pushes:
+            ok = f.must_pass([s_.bb for s_ in sends], pu.bb, f.returns())
+            ctx.ob('C06.1', f, 'recorded-frames-are-published', ok, 'after the frame was pushed into the history buffer %s' % ('every path to the return passes the broadcast send' if ok else
+                   'a path to the return SKIPS the broadcast send (publication made conditional): attached subscribers miss a frame the history replays to later ones'), line=pu.line)
 
     # ---------------------------------------------------------------- C06.4
     ctx.rule('C06.4', 'publish in seq order: every broadcast of a thread frame in ContinuityStore happens inside the live range of the next_seq guard that numbered it (a frame published after the guard was released can be overtaken by a later seq, and a live subscriber sees them out of order).')
